@@ -125,7 +125,40 @@ pub fn rolled_back_over(ops: &[String], t: u32) -> bool {
     false
 }
 
+/// Finding D8 seen across commits, verified on the engine: on a fresh engine of the same factory inputs the mask in
+/// state `hist` is fine, but it fails as soon as compute_ff_bytes() was asked at some earlier prefix of `hist`
+/// (the forced bytes through a special token stay behind as a token prefix that no token matches).
+fn d8_pattern_at_prefix(f: &ParserFactory, g: &GCase, hist: &[u32]) -> Option<usize> {
+    if !g.has_tag("special_token_ref") {
+        return None;
+    }
+    let mut clean = fresh_replay(f, g, hist)?;
+    if clean.compute_mask().is_err() {
+        return None;
+    }
+    for j in 0..=hist.len() {
+        let Some(mut m) = fresh_replay(f, g, &hist[..j]) else { continue };
+        let _ = m.compute_ff_bytes();
+        if hist[j..].iter().any(|&t| m.consume_token(t).is_err()) {
+            continue;
+        }
+        if m.compute_mask().is_err() {
+            return Some(j);
+        }
+    }
+    None
+}
+
 fn viol(ctx: &mut Ctx, idx: u64, g: &GCase, v: &Vocab, hist: &[u32], ops: &[String], kind: &str, detail: serde_json::Value) {
+    let mut detail = detail;
+    if (kind == "mask_error_differs_from_fresh" || kind == "differs_from_fresh_mask") && detail.get("ff_bytes_asked_before").and_then(|b| b.as_bool()) != Some(true) {
+        if let Ok(f) = factory(v, &FactoryOpts::default()) {
+            if let Some(j) = d8_pattern_at_prefix(&f, g, hist) {
+                detail["ff_bytes_asked_before"] = json!(true);
+                detail["forced_bytes_query_at_prefix_reproduces_it"] = json!(j);
+            }
+        }
+    }
     let d = json!({"case": pool::describe(ctx, g, v), "rolled_back_over_eos_id": rolled_back_over(ops, v.eos), "history": hist, "history_bytes": bytes_dbg(&v.trie().decode_raw(hist)), "ops": ops, "oracle": detail});
     let rp = ctx.replay(idx);
     let tags = g.tags.clone();
